@@ -106,6 +106,7 @@ package lexer
 
 //@ func (l *Lexer) NextToken() (lexer.Token, error)
 //@   requires l != nil && cursorOK(l.in) && l.in.lb == l.in.fw
+//@   requires errors.Is(l.in.endErr, io.EOF)
 //@   modifies l.in.lb, l.in.fw
 //@   decreases len(l.in.src) - l.in.lb
 //@   loop[0] invariant cursorOK(l.in) && l.in.lb == old(l.in.lb)
@@ -113,7 +114,7 @@ package lexer
 //@   loop[0] invariant forall k int :: l.in.lb <= k && k < l.in.fw ==> 0 <= l.in.src[k] && l.in.src[k] <= 127
 //@   loop[0] invariant forall k int :: {run(l.in.src, l.in.lb, k)} l.in.lb <= k && k <= l.in.fw ==> run(l.in.src, l.in.lb, k) != -1
 //@   loop[0] decreases len(l.in.src) - l.in.fw
-//@   ensures cursorOK(l.in) && l.in.lb == l.in.fw
+//@   ensures cursorOK(l.in) && (result1 == nil ==> l.in.lb == l.in.fw)
 //@   ensures sigStart(l.in.src, old(l.in.lb)) >= len(l.in.src) ==> result1 == l.in.endErr
 //@   ensures sigStart(l.in.src, old(l.in.lb)) < len(l.in.src) && kindAt(l.in.src, sigStart(l.in.src, old(l.in.lb))) < 0
 //@     ==> result1 != nil
